@@ -26,7 +26,7 @@ CLAIMED = {
         text=("Decides, for every call: the mask length is tested (returning WrongNumberOfMaskChannels) before any length-sensitive use "
               "of the mask in all seven process_into_buffer bodies and the allocating wrappers; validate_buffers(..)? precedes every state "
               "write (other than the per-call mask scratch, which is shown to be fully overwritten per call) and every access to caller "
-              "buffers; no error is produced after mutation begins; each validate_buffers error reports exactly the compared pair with "
+              "buffers; no error is produced after mutation begins; the two length loops of validate_buffers visit every active channel; each error reports exactly the compared pair with "
               "the right operator and measures the right argument; all public constructors validate their arguments first, and the "
               "validator guards reject exactly the documented invalid values (evaluated on order representatives)."),
         note="Trusted: syn parser; structured control flow (earlier statement in an enclosing block dominates). Not decided: panics in dependencies on absurd accepted constructor arguments.",
@@ -41,7 +41,9 @@ CLAIMED.update({
               "dimensions; all loads of the 7 kernels stay inside wave[index..index+length) and the packed rows; unchecked per-channel accesses are indexed by the "
               "enumerate index of a never-resized mask; fixed-output writes are bounded by the validated chunk size; validate_buffers accepts exact-size buffers; "
               "polynomial windows match their blend functions; fixed-output input provisioning covers the closed-form read position in every calling context; "
-              "fixed-input loop margin and history length cover the admissible steps (today two genuine defects per fixed-input type are reported as KNOWN-FINDING). "
+              "the constructor's buffer is at least history + the largest request (sound inequality prover); SIMD interpolators refuse construction unless exactly the CPU features their "
+              "#[target_feature] kernels need are detected; sub-indices stay below the oversampling factor; fixed-input loop margin and history length cover the admissible steps "
+              "(today six genuine defects are reported as KNOWN-FINDING: margin and history for both fixed-input types, oversampling factor 1 with Cubic/Quadratic for both sinc types). "
               "Run-time position arithmetic beyond these margins (ramp overshoot, integer overflow) is NOT decided."),
         note="Trusted: syn parser, sympy, intrinsic lane table. Not decided: value-dependent index bounds outside the margin rules; oversampling_factor 1 with Cubic/Quadratic.",
         design="5 C03", engine="astfacts+rules"),
@@ -96,7 +98,8 @@ CLAIMED.update({
         text=("Decides for every state: per type the getter input_frames_next(), the minimum passed to validate_buffers, the slice bound actually used to read wave_in and the "
               "returned input count are the same expression of the pre-state (likewise getter/validated minimum/returned count on the output side for fixed-output and synchronous "
               "types); fixed-input types return the loop's frame counter; *_frames_max() read only construction-time fields; FFT adapters use one set of block formulas; process() "
-              "sizes by output_frames_next() and truncates to the written count. Fixed-input: the advertised output count must account for the carried position - today it does "
+              "sizes by output_frames_next() and truncates to the written count; the allocate helpers size by the *_max() getters; fixed-output input_frames_max() bounds every reachable "
+              "request with a frame of rounding slack (inequality prover) and the request tracks the read position exactly. Fixed-input: the advertised output count must account for the carried position - today it does "
               "not (KNOWN-FINDING, 2 types). Numeric inequalities next <= max are NOT decided."),
         note="Trusted: syn parser, sympy. Exactness of block arithmetic is decided under C07.",
         design="5 C04", engine="astfacts+rules"),
@@ -105,7 +108,8 @@ CLAIMED.update({
         technique="exact algebra on constructor sizing identities and adapter bookkeeping; cast-path rule for exact integer frame arithmetic (syntax tree)",
         text=("Decides: the carried position is rebased by exactly the frames consumed and the fixed-output request follows it; with rate_in = g*a, rate_out = g*b all three FFT "
               "constructors produce block sizes chunks*a / chunks*b with exact divisions (so in*rate_out == out*rate_in) and chunks is the exact ceiling division of the request; "
-              "FftFixedInOut processes and reports exactly one block pair per call; the buffered adapters conserve frames; no frame count goes usize->f32->usize and the integer "
+              "FftFixedInOut processes and reports exactly one block pair per call; the buffered adapters conserve frames on their single success exit (no early return skips the bookkeeping); "
+              "no frame count goes usize->f32->usize and the integer "
               "division helpers are exact. The asynchronous drift constant is NOT decided."),
         note="Trusted: syn parser, sympy, num_integer::gcd.",
         design="5 C07", engine="astfacts+rules"),
@@ -132,7 +136,8 @@ CLAIMED.update({
         technique="non-interference by enumeration of declassification points on type-checked MIR",
         text=("Decides the control-agreement half: in every generic body a sample-typed value (T, &T, Complex<T>, arrays, SIMD vectors) is never passed to a call returning a non-sample "
               "value, containers of samples reach non-container results only through reviewed shape functions or the crate's own (inductively checked) functions, and the concrete "
-              "f32/f64 impls contain no float comparison or float->integer cast. Generic code cannot otherwise compare or cast T, so frame counts and control decisions are identical for "
+              "f32/f64 impls contain no float comparison or float->integer cast, nothing instantiated at the sample type returns a size or identity of the type (size_of::<T>() etc.), and the "
+              "CoerceFrom impls are plain conversions. Generic code cannot otherwise compare or cast T, so frame counts and control decisions are identical for "
               "both instantiations. A positive control (sinc::sinc's == on T) must be found on every run. Numeric closeness of outputs is NOT decided."),
         note="Trusted: rustc MIR and trait resolution, parametricity of generic std code, a 4-entry reviewed table.",
         design="5 C17", engine="mirfacts(P)+rules"),
@@ -140,7 +145,8 @@ CLAIMED.update({
         level="other",
         technique="isolation analysis: reachability of statics / thread-locals / ambient inputs on the monomorphic call graph, ownership type walk, Send compile-fail witnesses",
         text=("Replaces schedule exploration by an isolation argument decided statically: no run-time root reaches any static, thread-local, clock, environment, RNG or makes an indirect "
-              "call; constructors reach only rubato's immutable FEATURES tables and the reviewed std_detect cache; no pointer->integer casts or alignment queries in rubato; every struct field "
+              "call; constructors reach only rubato's immutable FEATURES tables and the reviewed std_detect cache; no pointer->integer casts, alignment queries, inline asm or access to the "
+              "per-thread floating-point control register anywhere in rubato (all targets); every struct field "
               "is owned (no Rc/Cell/Mutex/Atomic/raw pointer), the only shared handles being Arc'd immutable FFT plans; (thorough) Send witnesses for all 14 instantiations and the boxed "
               "wrapper plus compile-fail witnesses with compiling twins. Hence every interleaving is equivalent to a sequential one."),
         note="Trusted: rustc MIR, immutability of realfft/rustfft plans, planner determinism; constructor half is best effort (indirect calls listed in evidence).",
@@ -170,7 +176,8 @@ CLAIMED.update({
         technique="control-dependence and index-discipline rules on the syntax tree; range-coverage dataflow for shared scratch",
         text=("Decides: every access to wave_in / wave_out in the seven process_into_buffer bodies and in validate_buffers is under the mask bit of the same channel (or is the outer "
               "slice's length); inside a channel loop every per-channel container is indexed by that loop's channel variable only; state shared between channels (FFT work buffers, the "
-              "per-frame points array) is completely rewritten before use; frame counters, positions and returned counts live outside channel loops and never mention the mask. "
+              "per-frame points array) is completely rewritten before use; frame counters, positions and returned counts live outside channel loops and the mask is consulted only in the "
+              "prologue, the validate call and channel-loop headers (no early exit or count depends on it). "
               "With C18's isolation this gives channel independence and mask transparency for all inputs; numerical equality with single-channel runs is argued, not executed."),
         note="Trusted: syn parser; realfft overwrites its whole output.",
         design="5 C11", engine="astfacts+rules"),
